@@ -67,6 +67,9 @@ class HttpAuthenticated(HttpTransport):
 
     def addcredentials(self, request):
         credentials = self.credentials()
+        # Only the credentials configured now are offered: entries kept from
+        # earlier requests would win for every URL below theirs.
+        self.pm = urllib.request.HTTPPasswordMgrWithDefaultRealm()
         if None not in credentials:
             u = credentials[0]
             p = credentials[1]
